@@ -267,17 +267,21 @@ impl Store {
 
         // Only take broadcast subscription if following. We initate the subscription here to
         // ensure we don't miss any messages between historical processing and starting the
-        // broadcast subscription. The hand-off position is fixed in the same step, under the
-        // append lock (ids are assigned and frames broadcast under it): every frame up to
-        // `handoff_id` was appended before the subscription and is served by the historical
-        // scan if it is stored, every later frame reaches this subscription. Deciding the
-        // hand-off by the last scanned id instead drops an ephemeral frame that was broadcast
-        // during the scan whenever the scan also picks up a later stored frame.
-        let (broadcast_rx, handoff_id) = if should_follow {
+        // broadcast subscription. The hand-off is fixed in the same step, under the append lock
+        // (frames are committed and broadcast under it): the historical scan reads a snapshot
+        // of the store as of this moment - every frame stored so far, whatever its id, and
+        // nothing appended later - and every later append reaches this subscription. Neither
+        // side has to guess by id what the other one delivers (an ephemeral frame broadcast
+        // during the scan, or an imported frame whose id lies ahead of the local clock, would
+        // otherwise be dropped).
+        let (broadcast_rx, replay_at) = if should_follow {
             #[cfg(feature = "verif")]
             self.verif.point_lock("read.lock", &self.append_lock);
             let _append_guard = self.append_lock.lock().unwrap();
-            (Some(self.broadcast_tx.subscribe()), Some(scru128::new()))
+            (
+                Some(self.broadcast_tx.subscribe()),
+                Some(self.keyspace.instant()),
+            )
         } else {
             (None, None)
         };
@@ -316,14 +320,9 @@ impl Store {
                 let mut last_id = None;
                 let mut count = 0;
 
-                for frame in store.iter_frames(options.context_id, options.last_id.as_ref()) {
-                    // Frames past the hand-off position are delivered by the subscription
-                    if let Some(handoff_id) = handoff_id {
-                        if frame.id > handoff_id {
-                            break;
-                        }
-                    }
-
+                for frame in
+                    store.iter_frames_at(replay_at, options.context_id, options.last_id.as_ref())
+                {
                     if let Some(TTL::Time(ttl)) = frame.ttl.as_ref() {
                         if is_expired(&frame.id, ttl) {
                             #[cfg(feature = "verif")]
@@ -408,14 +407,6 @@ impl Store {
                         // Skip frames that do not match the context_id
                         if let Some(context_id) = options.context_id {
                             if frame.context_id != context_id {
-                                continue;
-                            }
-                        }
-
-                        // Skip what was appended before the subscription: the historical scan
-                        // covers it
-                        if let Some(handoff_id) = handoff_id {
-                            if frame.id <= handoff_id {
                                 continue;
                             }
                         }
@@ -686,6 +677,51 @@ impl Store {
         #[cfg(feature = "verif")]
         self.verif.point("append.sent", Some(&frame));
         Ok(frame)
+    }
+
+    /// `iter_frames` over the store as it was at `at` (a `Keyspace::instant`), or over the
+    /// live store when no instant is given.
+    fn iter_frames_at(
+        &self,
+        at: Option<fjall::Instant>,
+        context_id: Option<Scru128Id>,
+        last_id: Option<&Scru128Id>,
+    ) -> Box<dyn Iterator<Item = Frame> + '_> {
+        let Some(at) = at else {
+            return self.iter_frames(context_id, last_id);
+        };
+        let frames = self.frame_partition.snapshot_at(at);
+        match context_id {
+            Some(ctx_id) => {
+                let start_key = match last_id {
+                    Some(last_id) => {
+                        let mut v = Vec::with_capacity(32);
+                        v.extend(ctx_id.as_bytes());
+                        v.extend(last_id.as_bytes());
+                        Bound::Excluded(v)
+                    }
+                    None => Bound::Included(ctx_id.as_bytes().to_vec()),
+                };
+                let end_key = Bound::Excluded(idx_context_key_range_end(ctx_id));
+                Box::new(
+                    self.idx_context
+                        .snapshot_at(at)
+                        .range((start_key, end_key))
+                        .filter_map(move |r| {
+                            let (key, _) = r.ok()?;
+                            let value = frames.get(&key[16..]).ok()??;
+                            Some(deserialize_frame((&key[16..], value)))
+                        }),
+                )
+            }
+            None => {
+                let range = match last_id {
+                    Some(id) => (Bound::Excluded(id.as_bytes().to_vec()), Bound::Unbounded),
+                    None => (Bound::Unbounded, Bound::Unbounded),
+                };
+                Box::new(frames.range(range).map(|r| deserialize_frame(r.unwrap())))
+            }
+        }
     }
 
     fn iter_frames(
